@@ -252,7 +252,9 @@ impl EpochSnapshotManager {
         let inner = self.inner.lock().unwrap();
 
         if let Some(queue) = inner.snapshots.get(group_id)
-            && let Some(snapshot) = queue.iter().find(|s| s.epoch == candidate_epoch)
+            // The most recent snapshot of that epoch: an older one can be left over from a
+            // state this client has since replaced (re-join through a second invitation)
+            && let Some(snapshot) = queue.iter().rev().find(|s| s.epoch == candidate_epoch)
         {
             // Skip comparison for hydrated snapshots (applied_commit_ts == 0) since
             // we don't have the original timestamp info after restart
@@ -292,8 +294,8 @@ impl EpochSnapshotManager {
         let mut inner = self.inner.lock().unwrap();
 
         if let Some(queue) = inner.snapshots.get_mut(group_id) {
-            // Find the snapshot
-            if let Some(index) = queue.iter().position(|s| s.epoch == target_epoch) {
+            // Find the snapshot (the most recent one of that epoch, see is_better_candidate)
+            if let Some(index) = queue.iter().rposition(|s| s.epoch == target_epoch) {
                 let snapshot = &queue[index];
 
                 // Perform rollback (this consumes the snapshot)
